@@ -35,7 +35,7 @@ pub const ARCHQUALS: [&str; 3] = ["", "any", "amd64"];
 pub const OPS: [&str; 6] = ["", ">=", "<<", "<=", "=", ">>"];
 pub const VERS: [&str; 3] = ["1", "1.0-1~rc1", "2:1.0"];
 pub const ARCHS: [&[&str]; 5] = [&[], &["amd64"], &["amd64", "i386"], &["!amd64"], &["!amd64", "!i386"]];
-pub const PROFILES: [&[&[&str]]; 5] = [&[], &[&["x"]], &[&["!x"]], &[&["x", "y"]], &[&["!x", "y"], &["z"]]];
+pub const PROFILES: [&[&[&str]]; 8] = [&[], &[&["x"]], &[&["!x"]], &[&["x", "y"]], &[&["!x", "y"], &["z"]], &[&["x", "!y"]], &[&["!x", "!y", "z"]], &[&["x"], &["y", "!z"], &["!w"]]];
 /// whitespace around ',' and '|' and at the field's start/end
 pub const SEP_WS: [&str; 6] = ["", " ", "  ", "\t", "\n ", " \n  "];
 /// same menu with the conventional single space first (after ',' and around '|')
@@ -49,7 +49,7 @@ pub const SUBSTVAR: &str = "${a:B}";
 
 pub const REL_SLOTS: usize = 11;
 // name, archqual, op, version, archs, profiles, ws name-paren, ws op-version, ws before archs, ws before profiles, item ws
-const REL_MENUS: [usize; REL_SLOTS] = [2, 3, 6, 3, 5, 5, 4, 3, 4, 4, 3];
+const REL_MENUS: [usize; REL_SLOTS] = [2, 3, 6, 3, 5, 8, 4, 3, 4, 4, 3];
 
 /// Slot layout: [lead ws, trail ws, trailing comma] then per entry: [kind, ws before ',', ws after ','] + per alt: [ws before '|', ws after '|'] + relation slots
 pub fn menus(sk: RSkel) -> Vec<usize> {
